@@ -194,14 +194,14 @@ func runC01(c *Ctx) {
 		}
 		for _, lit := range structLits([]*ssa.Function{nc}, "/v2.Classifier") {
 			q, isCall := lit.fields["q"].(*ssa.Call)
-			ok := isCall && q.Call.StaticCallee() != nil && q.Call.StaticCallee().Name() == "computeQ" && q.Call.Args[0] == nc.Params[0] && lit.fields["threshold"] == nc.Params[0]
+			ok := isCall && p.IsFn(q.Call.StaticCallee(), v2pkg, "computeQ") && q.Call.Args[0] == nc.Params[0] && lit.fields["threshold"] == nc.Params[0]
 			c.R.Check(ok, "R01.2", "NewClassifier stores threshold and q = computeQ(threshold) of the same argument", p.Pos(lit.alloc.Pos()), "threshold: t, q: computeQ(t)", "q is not derived from the stored threshold")
 		}
 	}
 	ng := 0
 	for _, fn := range v2Funcs(p) {
 		for _, call := range core.CallsIn(fn) {
-			if cal := call.Common().StaticCallee(); cal != nil && cal.Name() == "generateSearchSet" {
+			if cal := call.Common().StaticCallee(); p.IsFn(cal, v2pkg, "(*indexedDocument).generateSearchSet") {
 				ng++
 				ok := core.LoadOfField(call.Common().Args[1], "/v2.Classifier", "q")
 				c.R.Check(ok, "R01.2", core.ShortFn(fn)+": search set built with the classifier's q", p.Pos(call.Pos()), "generateSearchSet(c.q)", "corpus and target q-grams are built with different q: their hashes can never be joined")
@@ -246,7 +246,7 @@ func runC02(c *Ctx) {
 	find := func(name string) *ssa.Call {
 		var out *ssa.Call
 		for _, call := range core.CallsIn(sc) {
-			if cal := call.Common().StaticCallee(); cal != nil && cal.Name() == name {
+			if cal := call.Common().StaticCallee(); p.IsFn(cal, v2pkg, name) {
 				if cv, ok := call.(*ssa.Call); ok && out == nil {
 					out = cv
 				}
@@ -267,7 +267,7 @@ func runC02(c *Ctx) {
 			return false
 		}
 		s, ok := core.InlineAccessor(call)
-		return ok && s == "len("+core.AP(known)+".Tokens)" || (call.Call.StaticCallee() != nil && call.Call.StaticCallee().Name() == "size" && core.Unspill(call.Call.Args[0]) == known)
+		return ok && s == "len("+core.AP(known)+".Tokens)" || (p.IsFn(call.Call.StaticCallee(), v2pkg, "(*indexedDocument).size") && core.Unspill(call.Call.Args[0]) == known)
 	}
 	a := dd.Call.Args
 	zero, isZ := core.ConstInt(a[5])
@@ -294,7 +294,7 @@ func runC02(c *Ctx) {
 	// the returned offsets: textLength(diffs[:start]), textLength(diffs[end:])
 	var tl []*ssa.Call
 	for _, call := range core.CallsIn(sc) {
-		if cal := call.Common().StaticCallee(); cal != nil && cal.Name() == "textLength" {
+		if cal := call.Common().StaticCallee(); p.IsFn(cal, v2pkg, "textLength") {
 			tl = append(tl, call.(*ssa.Call))
 		}
 	}
@@ -416,7 +416,7 @@ func runC05(c *Ctx) {
 	// any other append into the word buffer (the slice handed to flushBuf)
 	fam := map[ssa.Value]bool{}
 	for _, call := range core.CallsIn(ts) {
-		if cal := call.Common().StaticCallee(); cal != nil && cal.Name() == "flushBuf" {
+		if cal := call.Common().StaticCallee(); p.IsFn(cal, v2pkg, "flushBuf") {
 			for v := range sliceFamilyThrough(call.Common().Args[1]) {
 				fam[v] = true
 			}
@@ -576,7 +576,7 @@ func runC06(c *Ctx) {
 		n := 0
 		for _, call := range core.CallsIn(sl) {
 			cal := call.Common().StaticCallee()
-			if cal == nil || (cal.Name() != "add" && cal.Name() != "getIndex") || !strings.HasSuffix(core.ShortFn(cal), "dictionary)."+cal.Name()) {
+			if cal == nil || !(p.IsFn(cal, v2pkg, "(*dictionary).add") || p.IsFn(cal, v2pkg, "(*dictionary).getIndex")) {
 				continue
 			}
 			// only the lookups that produce token ids (their argument is the cleaned text)
@@ -586,7 +586,7 @@ func runC06(c *Ctx) {
 			}
 			n++
 			ct, isCall := txt.(*ssa.Call)
-			ok := isCall && ct.Call.StaticCallee() != nil && ct.Call.StaticCallee().Name() == "cleanupToken" && ascendingIndex(ct.Call.Args[0])
+			ok := isCall && p.IsFn(ct.Call.StaticCallee(), v2pkg, "cleanupToken") && ascendingIndex(ct.Call.Args[0])
 			c.R.Check(ok, "R06.5", "stringifyLineBuf: the text interned for a token is cleanupToken(its position in the line, its word)", p.Pos(call.Pos()),
 				"dictionary lookup of cleanupToken(i, word, normalize) with i the loop index", "the interned text is not computed by cleanupToken at the token's own position ("+eng.Describe(txt)+"): list-marker removal depends on the position in the line, so a cached or shared result is wrong for other positions")
 		}
@@ -807,7 +807,7 @@ func checkLineFlagIndependence(c *Ctx, p *core.Prog, fn *ssa.Function) {
 			case *ssa.Call:
 				if f := x.Call.StaticCallee(); f != nil {
 					for i, a := range x.Call.Args {
-						if i < len(f.Params) && f.Params[i].Name() == "line" {
+						if i < len(f.Params) && isLineParam(f, i, 0) {
 							sinks = append(sinks, a)
 						}
 					}
@@ -1072,7 +1072,7 @@ func runC17(c *Ctx) {
 		oa.FindSorts()
 		var un ssa.CallInstruction
 		for _, call := range core.CallsIn(gm) {
-			if cal := call.Common().StaticCallee(); cal != nil && cal.Name() == "untangleSourceRanges" {
+			if cal := call.Common().StaticCallee(); p.IsFn(cal, ssPkg, "untangleSourceRanges") {
 				un = call
 			}
 		}
